@@ -1,43 +1,8 @@
-(* Range of the parser: every parsed expression is well formed, except that the
-   last top-level one may be a comment cut off by the end of input; writing
-   and re-parsing a parsed text normalises exactly that comment. *)
+(* Range of the parser: every parsed expression is well formed (a comment that
+   is cut off by the end of input gets its line break from the parser), so
+   writing and re-parsing a parsed text is the identity. *)
 From DD Require Import Model.Lexer Model.Writer Spec.StdReader.
 From DD Require Import Proofs.Lex.Automaton Proofs.Lex.Render Proofs.Lex.Writers.
-
-(* ---------- definitions ---------- *)
-
-(* a comment leaf without its final LF *)
-Definition ucomment (e : sexp) : bool :=
-  match e with
-  | L (c :: body) => N.eqb c cSEMI && forallb (fun x => negb (N.eqb x cLF)) body
-  | _ => false
-  end.
-
-Fixpoint wf_last (es : list sexp) : bool :=
-  match es with
-  | [] => true
-  | e :: r =>
-      match r with
-      | [] => wf e || ucomment e
-      | _ :: _ => wf e && wf_last r
-      end
-  end.
-
-Definition norm1 (e : sexp) : sexp :=
-  match e with
-  | L s => if ucomment e then L (s ++ [cLF]) else e
-  | T _ => e
-  end.
-
-Fixpoint norm (es : list sexp) : list sexp :=
-  match es with
-  | [] => []
-  | e :: r =>
-      match r with
-      | [] => [norm1 e]
-      | _ :: _ => e :: norm r
-      end
-  end.
 
 (* ---------- introduction lemmas for the leaf classes ---------- *)
 
@@ -235,223 +200,46 @@ Qed.
 Lemma inv_init : inv init.
 Proof. repeat split. Qed.
 
-(* ---------- wf_last ---------- *)
+(* ---------- end of input ---------- *)
 
-Lemma wf_last_all es : forallb wf es = true -> wf_last es = true.
-Proof.
-  induction es as [|e r IH]; intros H; [reflexivity|].
-  cbn [forallb] in H. apply andb_true_iff in H. destruct H as [He Hr].
-  cbn [wf_last]. destruct r as [|e2 r'].
-  - now rewrite He.
-  - rewrite He. now apply IH.
-Qed.
-
-Lemma wf_last_snoc es e : forallb wf es = true -> wf e || ucomment e = true ->
-  wf_last (es ++ [e]) = true.
-Proof.
-  intros Hes He. induction es as [|x es IH]; [exact He|].
-  cbn [forallb] in Hes. apply andb_true_iff in Hes. destruct Hes as [Hx Hes].
-  cbn [app wf_last].
-  destruct (es ++ [e]) as [|y r] eqn:E.
-  - now destruct es.
-  - rewrite Hx. now apply IH.
-Qed.
-
-Lemma wf_last_rev_out x o : forallb wf o = true -> wf x || ucomment x = true ->
-  wf_last (rev (x :: o)) = true.
-Proof.
-  intros Ho Hx. cbn [rev]. apply wf_last_snoc; [|assumption]. now rewrite forallb_rev.
-Qed.
-
-Lemma inv_finish s : inv s -> wf_last (finish s) = true.
+Lemma inv_finish s : inv s -> forallb wf (finish s) = true.
 Proof.
   destruct s as [o k m]. intros (Ho & Hk & Hm). cbn [out stack md] in *.
-  assert (Hall : wf_last (rev o) = true).
-  { apply wf_last_all. now rewrite forallb_rev. }
-  assert (Hemit : forall x, wf x || ucomment x = true ->
-                  wf_last (rev (out (emit x (mkst o k m)))) = true).
+  assert (Hall : forallb wf (rev o) = true) by now rewrite forallb_rev.
+  assert (Hemit : forall x, wf x = true ->
+                  forallb wf (rev (out (emit x (mkst o k m)))) = true).
   { intros x Hx. unfold emit. cbn [stack out].
     destruct k as [|f fs]; cbn [out]; [|assumption].
-    now apply wf_last_rev_out. }
+    rewrite forallb_rev. cbn [forallb]. now rewrite Hx, Ho. }
   destruct m as [|acc|q acc|acc|acc]; unfold finish; cbn [md out].
   - assumption.
-  - apply Hemit. cbn [wf]. cbn [mode_ok] in Hm. apply orb_true_iff. left.
-    now apply leaf_ok_atom.
+  - apply Hemit. cbn [wf]. cbn [mode_ok] in Hm. now apply leaf_ok_atom.
   - assumption.
   - apply Hemit. cbn [wf]. cbn [mode_ok] in Hm. destruct Hm as (body & Er & Hb).
-    try unfold char in *; rewrite Er. apply orb_true_iff. left.
+    try unfold char in *; rewrite Er.
     now apply leaf_ok_strlit, (strlit_ok_intro body).
   - apply Hemit. cbn [mode_ok] in Hm. destruct Hm as (body & Er & Hb).
-    try unfold char in *; rewrite Er. apply orb_true_iff. right.
-    cbn [ucomment]. apply andb_true_intro. split; [apply N.eqb_refl|exact Hb].
+    cbn [wf rev]. try unfold char in *; rewrite Er. apply leaf_ok_comment.
+    now apply (comment_ok_intro body).
 Qed.
 
-Theorem parser_range_proof : forall t, wf_last (parse t) = true.
+Theorem parser_range_proof : forall t, forallb wf (parse t) = true.
 Proof. intros t. unfold parse. apply inv_finish, inv_run, inv_init. Qed.
 
-(* ---------- normalisation ---------- *)
-
-Lemma ucomment_not_wf s : ucomment (L s) = true -> wf (L s) = false.
-Proof.
-  destruct s as [|c body]; [discriminate|]. cbn [ucomment wf].
-  intros H. apply andb_true_iff in H. destruct H as [Hc Hb].
-  apply N.eqb_eq in Hc. subst c.
-  apply not_true_is_false. intros E.
-  apply leaf_ok_cases in E. destruct E as [E|[E|[E|E]]].
-  - apply atom_inv in E. destruct E as (a & tl & E & Ha & _).
-    injection E as <- _. vm_compute in Ha. discriminate Ha.
-  - apply strlit_inv in E. destruct E as (b & E & _).
-    injection E as E _. vm_compute in E. discriminate E.
-  - apply qsym_inv in E. destruct E as (b & E & _).
-    injection E as E _. vm_compute in E. discriminate E.
-  - apply comment_inv in E. destruct E as (b & E & _).
-    injection E as ->. rewrite forallb_app in Hb. cbn [forallb] in Hb.
-    rewrite N.eqb_refl in Hb. cbn [negb andb] in Hb.
-    now rewrite andb_false_r in Hb.
-Qed.
-
-Lemma norm1_wf e : wf e = true -> norm1 e = e.
-Proof.
-  destruct e as [s|l]; [|reflexivity]. intros H. unfold norm1.
-  destruct (ucomment (L s)) eqn:E; [|reflexivity].
-  apply ucomment_not_wf in E. congruence.
-Qed.
-
-Lemma norm_wf es : forallb wf es = true -> norm es = es.
-Proof.
-  induction es as [|e r IH]; intros H; [reflexivity|].
-  cbn [forallb] in H. apply andb_true_iff in H. destruct H as [He Hr].
-  cbn [norm]. destruct r as [|e2 r'].
-  - now rewrite norm1_wf.
-  - now rewrite IH.
-Qed.
-
-Lemma norm_snoc es e : norm (es ++ [e]) = es ++ [norm1 e].
-Proof.
-  induction es as [|x es IH]; [reflexivity|].
-  cbn [app norm]. destruct (es ++ [e]) as [|y r] eqn:E.
-  - now destruct es.
-  - now rewrite IH.
-Qed.
-
-Lemma wf_last_cases es : wf_last es = true ->
-  forallb wf es = true \/
-  exists es' s, es = es' ++ [L s] /\ forallb wf es' = true /\ ucomment (L s) = true.
-Proof.
-  induction es as [|e r IH]; intros H; [now left|].
-  cbn [wf_last] in H. destruct r as [|e2 r'].
-  - apply orb_true_iff in H. destruct H as [H|H].
-    + left. cbn [forallb]. now rewrite H.
-    + right. destruct e as [s|l]; [|discriminate].
-      exists [], s. now repeat split.
-  - apply andb_true_iff in H. destruct H as [He Hr].
-    destruct (IH Hr) as [Hall|(es' & s & E & Hes' & Hs)].
-    + left. cbn [forallb] in *. now rewrite He.
-    + right. exists (e :: es'), s. rewrite E. repeat split; try assumption.
-      cbn [forallb]. now rewrite He.
-Qed.
-
-(* ---------- writing a final unterminated comment ---------- *)
-
-Lemma ucomment_inv s : ucomment (L s) = true ->
-  is_comment s = true /\ leaf_ok (s ++ [cLF]) = true.
-Proof.
-  destruct s as [|c body]; [discriminate|]. cbn [ucomment].
-  intros H. apply andb_true_iff in H. destruct H as [Hc Hb].
-  split; [exact Hc|].
-  apply N.eqb_eq in Hc. subst c. apply leaf_ok_comment.
-  now apply (comment_ok_intro body).
-Qed.
-
-Lemma flats_app a b : flats (a ++ b) = flats a ++ flats b.
-Proof. apply flat_map_app. Qed.
-
-Lemma last_comment_tokens t' es' s tl :
-  rend true t' (flats es') true -> ucomment (L s) = true -> ws_ok tl = true ->
-  tokens_of (t' ++ cLF :: (s ++ [cLF]) ++ tl) (flats (es' ++ [L (s ++ [cLF])])).
-Proof.
-  intros R Hs Htl. apply ucomment_inv in Hs. destruct Hs as [_ Hl].
-  rewrite flats_app. unfold flats at 2. cbn [flat_map flat app].
-  apply (rend_tokens _ _ (false || nonempty tl)).
-  apply (rend_app true true _); [assumption|].
-  apply rend_c; [reflexivity|].
-  apply rend_tok; [assumption|].
-  rewrite <- (app_nil_r tl) at 1. apply rend_ws; [assumption|]. apply rend_nil.
-Qed.
-
-Lemma w_check_last s : is_comment s = true ->
-  w_check [L s] = cLF :: (s ++ [cLF]) ++ [cLF].
-Proof.
-  destruct s as [|c body]; [discriminate|]. intros H.
-  unfold w_check, w_compact. cbn [flat_map]. rewrite wc_L, H. cbn [fst sp app].
-  now rewrite app_nil_r.
-Qed.
-
-Lemma w_pretty_last s : is_comment s = true ->
-  w_pretty [L s] = cLF :: (s ++ [cLF]) ++ [].
-Proof.
-  destruct s as [|c body]; [discriminate|]. intros H.
-  unfold w_pretty. cbn [flat_map]. rewrite wp_L, H. reflexivity.
-Qed.
-
-Lemma w_wrap_last s : is_comment s = true ->
-  w_wrap [L s] = cLF :: (s ++ [cLF]) ++ [cLF].
-Proof.
-  destruct s as [|c body]; [discriminate|]. intros H.
-  unfold w_wrap, w_wrap1. cbn [flat_map]. rewrite ww_L, H. cbn [fst wsep app].
-  now rewrite app_nil_r.
-Qed.
-
-Lemma roundtrip_generic (w : list sexp -> str) (tl : str) :
-  (forall a b, w (a ++ b) = w a ++ w b) ->
-  (forall es, forallb wf es = true -> rend true (w es) (flats es) true) ->
-  (forall s, is_comment s = true -> w [L s] = cLF :: (s ++ [cLF]) ++ tl) ->
-  ws_ok tl = true ->
-  forall es, wf_last es = true -> parse (w es) = norm es.
-Proof.
-  intros Happ Hrend Hlast Htl es H.
-  apply wf_last_cases in H. destruct H as [H|(es' & s & -> & Hes' & Hs)].
-  - rewrite norm_wf by assumption.
-    apply parse_of_tokens. apply (rend_tokens _ _ true). now apply Hrend.
-  - rewrite norm_snoc. unfold norm1. rewrite Hs.
-    rewrite Happ, Hlast by (now apply ucomment_inv in Hs).
-    apply parse_of_tokens.
-    apply last_comment_tokens; try assumption. now apply Hrend.
-Qed.
+(* ---------- writing and re-parsing a parsed text ---------- *)
 
 Theorem parsed_roundtrip_check_proof : forall t,
-  parse (w_check (parse t)) = norm (parse t).
-Proof.
-  intros t. apply (roundtrip_generic w_check [cLF]).
-  - intros a b. apply flat_map_app.
-  - exact w_check_rend.
-  - exact w_check_last.
-  - reflexivity.
-  - apply parser_range_proof.
-Qed.
+  parse (w_check (parse t)) = parse t.
+Proof. intros t. apply parse_w_check_proof, parser_range_proof. Qed.
 
 Theorem parsed_roundtrip_default_proof : forall t,
-  parse (w_default (parse t)) = norm (parse t).
-Proof. exact parsed_roundtrip_check_proof. Qed.
+  parse (w_default (parse t)) = parse t.
+Proof. intros t. apply parse_w_default_proof, parser_range_proof. Qed.
 
 Theorem parsed_roundtrip_pretty_proof : forall t,
-  parse (w_pretty (parse t)) = norm (parse t).
-Proof.
-  intros t. apply (roundtrip_generic w_pretty []).
-  - intros a b. apply flat_map_app.
-  - exact w_pretty_rend.
-  - exact w_pretty_last.
-  - reflexivity.
-  - apply parser_range_proof.
-Qed.
+  parse (w_pretty (parse t)) = parse t.
+Proof. intros t. apply parse_w_pretty_proof, parser_range_proof. Qed.
 
 Theorem parsed_roundtrip_wrap_proof : forall t,
-  parse (w_wrap (parse t)) = norm (parse t).
-Proof.
-  intros t. apply (roundtrip_generic w_wrap [cLF]).
-  - intros a b. apply flat_map_app.
-  - exact w_wrap_rend.
-  - exact w_wrap_last.
-  - reflexivity.
-  - apply parser_range_proof.
-Qed.
+  parse (w_wrap (parse t)) = parse t.
+Proof. intros t. apply parse_w_wrap_proof, parser_range_proof. Qed.
